@@ -99,16 +99,19 @@ func (o *operations) GracefulClose() {
 		return
 	}
 	// do not enqueue anymore ops from here on
-	// o.isClosed=true will also not allow a new busyCh
-	// to be created.
 	o.isClosed = true
 
 	busyCh := o.busyCh
 	o.mu.Unlock()
-	if busyCh == nil {
-		return
+	// Wait until everything that was accepted before the close has run. The
+	// worker may have to be restarted once for an operation that slipped in
+	// while it was exiting, so keep waiting until no worker is left.
+	for busyCh != nil {
+		<-busyCh
+		o.mu.Lock()
+		busyCh = o.busyCh
+		o.mu.Unlock()
 	}
-	<-busyCh
 }
 
 func (o *operations) pop() func() {
@@ -134,7 +137,10 @@ func (o *operations) start() {
 		// this wil lbe the most recent busy chan
 		close(o.busyCh)
 
-		if o.ops.Len() == 0 || o.isClosed {
+		// Operations accepted before a close still have to run (dropping one
+		// would also leave a Done() waiter blocked forever); tryEnqueue rejects
+		// anything that arrives after the close.
+		if o.ops.Len() == 0 {
 			o.busyCh = nil
 
 			return
